@@ -438,6 +438,40 @@ func carryRule(c *Ctx, fnName, field string, preds []startPred) int {
 		missingAnchor(r, fnName)
 		return 0
 	}
+	// the carried buffer may be handled in a new helper method of the same receiver (the function was split):
+	// the typestate is then checked in the helper that loads the field most often
+	countLoads := func(f *ssa.Function) int {
+		k := 0
+		if len(f.Params) == 0 {
+			return 0
+		}
+		for _, b := range f.Blocks {
+			for _, in := range b.Instrs {
+				if u, ok := in.(*ssa.UnOp); ok && u.Op == token.MUL {
+					if fa, ok := u.X.(*ssa.FieldAddr); ok && fa.X == ssa.Value(f.Params[0]) && core.FieldName(fa) == field {
+						k++
+					}
+				}
+			}
+		}
+		return k
+	}
+	reanchored := false
+	if countLoads(fn) == 0 {
+		best := 0
+		for _, h := range newHelpers(fn) {
+			if h.Signature.Recv() == nil || fn.Signature.Recv() == nil || !types.Identical(h.Signature.Recv().Type(), fn.Signature.Recv().Type()) {
+				continue
+			}
+			if k := countLoads(h); k > best {
+				best, fn = k, h
+			}
+		}
+		if best > 0 {
+			reanchored = true
+			r.Infof("STRUCT.carry %s: field %s is handled in the new helper %s; the typestate is checked there", fnName, field, core.FuncName(fn))
+		}
+	}
 	m := bits.Run(p, fn)
 	recv := fn.Params[0]
 	isFieldAddr := func(v ssa.Value) bool {
@@ -607,6 +641,11 @@ func carryRule(c *Ctx, fnName, field string, preds []startPred) int {
 		detail := bad
 		if detail == "" && !ok {
 			detail = fmt.Sprintf("%d branches on the start marker, %d consumptions of %s found (%d loads)", nTests, nUses, field, nLoads)
+		}
+		if reanchored && !ok {
+			// the helper may receive the marker as an argument instead of reading the payload: the rule cannot see it
+			r.Infof("STRUCT.carry %s: %s (start: %s = %v): not decided in the helper (%s)", fnName, field, sp.pattern, sp.polarity, detail)
+			continue
 		}
 		r.Add("STRUCT.carry", fnName, fmt.Sprintf("%s carried over is consumed only on continuation paths (start: %s = %v)", field, sp.pattern, sp.polarity), p.Position(fn.Pos()), ok, detail)
 	}
